@@ -15,6 +15,34 @@ type OptInt struct {
 // Force returns a set OptInt.
 func Force(v int64) OptInt { return OptInt{true, v} }
 
+func (o OptInt) String() string {
+	if !o.Set {
+		return "-"
+	}
+	return fmt.Sprint(o.V)
+}
+
+func (e XRefEntryOverride) String() string {
+	if e.Drop {
+		return "drop"
+	}
+	return fmt.Sprintf("type=%v f2=%v f3=%v", e.Type, e.F2, e.F3)
+}
+
+func (l LengthOverride) String() string { return fmt.Sprintf("%v(%d)", l.Mode, l.V) }
+
+func (o ObjStmOverride) String() string {
+	return fmt.Sprintf("N=%v First=%v Pairs=%v Extends=%v", o.N, o.First, o.Pairs, o.Extends)
+}
+
+func (x XRefStmOverride) String() string {
+	return fmt.Sprintf("W=%v Index=%v Size=%v dataFollowsW=%v", x.W, x.Index, x.Size, x.EncodeWithW)
+}
+
+func (p PrevOverride) String() string {
+	return [...]string{"default", "value", "self", "drop"}[p.Mode] + fmt.Sprintf("(%d)", p.V)
+}
+
 // XRefKey addresses a cross-reference entry: revision (-1 = every revision in
 // which the object has an entry) and object number.
 type XRefKey struct{ Rev, Num int }
